@@ -3,6 +3,7 @@ CONSTANTS
   Mutant = "ignore-op-lists"
   MaxOps = 1
   WithUpperCaseDesc = TRUE
+  WithNoContent = TRUE
   SmallSec = FALSE
 INVARIANTS ServingConsequence
 CHECK_DEADLOCK FALSE
